@@ -1120,6 +1120,8 @@ type responseWriter struct {
 	endWritten bool
 	respMeta   *responseMeta
 	err        error
+	// bufSink is the writer over buf handed to the body adapters (nil if not buffering)
+	bufSink *limitWriter
 	// wraps op.writer; initialized after headers are written
 	w io.WriteCloser
 	// may be used in place of op.writer for protocols that must see
@@ -1277,7 +1279,8 @@ func (w *responseWriter) writeHeader(statusCode int) {
 		// We must await the end before we can write headers, which means we have to
 		// buffer the entire response.
 		w.buf = w.op.bufferPool.Get()
-		delegate = &limitWriter{buf: w.buf, limit: w.op.methodConf.maxMsgBufferBytes, rw: w}
+		w.bufSink = &limitWriter{buf: w.buf, limit: w.op.methodConf.maxMsgBufferBytes, rw: w}
+		delegate = w.bufSink
 	} else {
 		// We can go ahead and flush headers now.
 		w.flushHeaders()
@@ -1388,6 +1391,11 @@ func (w *responseWriter) flushHeaders() {
 		}
 		w.op.bufferPool.Put(w.buf)
 		w.buf = nil
+		if w.bufSink != nil {
+			// the buffer is back in the pool: whatever still writes to the sink (a message
+			// completed after an error ended the RPC) must not write into it any more
+			w.bufSink.buf = nil
+		}
 	}
 	if w.respMeta.end != nil {
 		// response is done
@@ -1988,6 +1996,9 @@ type limitWriter struct {
 }
 
 func (l *limitWriter) Write(data []byte) (n int, err error) {
+	if l.buf == nil {
+		return 0, errFinalDataAlreadyWritten
+	}
 	length := l.buf.Len() + len(data)
 	if length > int(l.limit) {
 		err := bufferLimitError(int64(l.limit))
